@@ -351,7 +351,10 @@ func (s *State) catFactsGuarded(guard, r, a, b string) {
 			eq(app("lstl", r), ite(eq(app("nl", b), "0"), app("+", app("lstl", a), app("vlen", b)), app("lstl", b))),
 			eq(app("mxl", r), app("max2", app("max2", app("mxl", a), app("mxl", b)), app("+", app("lstl", a), app("fstl", b)))),
 			eq(app("mmin", r), ite(eq(app("nl", a), "0"), app("mmin", b), ite(eq(app("nl", b), "0"), app("mmin", a),
-				app("min2", app("min2", app("mmin", a), app("mmin", b)), app("+", app("lstl", a), app("fstl", b)))))))))
+				app("min2", app("min2", app("mmin", a), app("mmin", b)), app("+", app("lstl", a), app("fstl", b)))))),
+			// empty lines: the last line of a and the first line of b merge into one
+			eq(app("nel", r), app("+", app("-", app("-", app("+", app("nel", a), app("nel", b)), ite(eq(app("lstl", a), "0"), "1", "0")), ite(eq(app("fstl", b), "0"), "1", "0")),
+				ite(eq(app("+", app("lstl", a), app("fstl", b)), "0"), "1", "0"))))))
 	}
 }
 
